@@ -43,7 +43,15 @@ pub fn prop_num(p: &str) -> u64 {
 pub fn plan(prop: &str, tier: &str, ctx: &Ctx) -> (u64, u64, String) {
     let thorough = tier == "thorough";
     match prop {
-        "C10" => (if thorough { 30_000_000 } else { 1_000_000 }, 0, String::new()),
+        "C10" => {
+            let l = if thorough { 5 } else { 4 };
+            let ex = crate::gen::count_strings(16, l);
+            (
+                ex + if thorough { 30_000_000 } else { 1_000_000 },
+                ex,
+                format!("every string of length <= {l} over the 16-symbol alphabet {:?} x 16 environments", crate::gen::C10_ALPHABET),
+            )
+        }
         "C01" => {
             let l = if thorough { 5 } else { 4 };
             let ex = crate::gen::w5_count(l) * c01::W5_ENVS.len() as u64;
@@ -79,7 +87,7 @@ pub fn swarm_for(ctx: &Ctx, i: u64) -> Swarm {
 pub fn generate(ctx: &Ctx, i: u64, sw: &Swarm, exhaustive: u64) -> Case {
     let run_seed = mix(ctx.cfg.seed, prop_num(&ctx.cfg.prop), i);
     match ctx.cfg.prop.as_str() {
-        "C10" => c10::generate(run_seed, &ctx.corpus, sw),
+        "C10" => c10::generate(run_seed, &ctx.corpus, sw, i, exhaustive),
         "C01" => c01::generate(run_seed, &ctx.corpus, sw, i, exhaustive),
         "C17" => c17::generate(run_seed, ctx, sw, i, exhaustive),
         "C18" => c18::generate(run_seed, &ctx.corpus, sw, i, exhaustive),
